@@ -97,6 +97,11 @@ func (p *Parser) parseMethod(method types.Object, opts option.Options) (*model.M
 	if signature.Results().Len() == 0 {
 		return nil, logger.Errorf(`%v: method must have one or more return values as copy destination`, p.fset.Position(method.Pos()))
 	}
+	if 2 < signature.Results().Len() ||
+		(signature.Results().Len() == 2 && !util.IsErrorType(signature.Results().At(1).Type())) {
+		// Any other result would be dropped from the function, which then differs from what is declared.
+		return nil, logger.Errorf(`%v: method must return the copy destination and, optionally, an error`, p.fset.Position(method.Pos()))
+	}
 
 	docComment, cleanUp := util.GetDocCommentOn(p.file, method)
 	notations := util.ExtractMatchComments(docComment, reNotation)
